@@ -533,6 +533,13 @@ func (e *Effects) callResultRoots(c *ssa.Call, idx int, depth int) RootSet {
 		rs.add(Root{Kind: "fresh", Name: allocID(c)})
 		if pointerLike(c.Type()) {
 			e.noteUnknown(name)
+			// no contract and no body: the result may share memory with anything reachable
+			// from a pointer-like argument
+			for _, a := range args {
+				if pointerLike(a.Type()) {
+					rs.addAll(e.rootsOf(a, depth))
+				}
+			}
 		}
 	}
 	if len(e.callees(c)) == 0 {
